@@ -135,6 +135,7 @@ func loadEarlyExitTable(verifDir string) map[string]string {
 // ruleEarlyExitInventory: every guarded `return ..., nil` in the given packages is reviewed.
 func ruleEarlyExitInventory(c *Ctx, r *Report, clause string, floor int, pkgPrefixes ...string) {
 	ruleResultShapes(c, r, clause, pkgPrefixes...)
+	ruleDecisionInputs(c, r, clause, pkgPrefixes...)
 	w := c.W
 	table := loadEarlyExitTable(c.VerifDir)
 	n := 0
@@ -330,4 +331,73 @@ func ruleResultShapes(c *Ctx, r *Report, clause string, pkgPrefixes ...string) {
 		sites = []string{strings.Join(pkgPrefixes, ",") + ":0"}
 	}
 	r.add(clause, "result-shape", strings.Join(pkgPrefixes, ","), fmt.Sprintf("the %d reviewed error-returning functions of these packages answer only in the shapes recorded for them", n), pkgPrefixes, sites, viol)
+}
+
+// ---------------------------------------------------------------------------
+// Decision inputs
+//
+// What a function's branches look at: the struct fields they read and the gleece functions
+// they ask. `tables/condatoms.json` records them per reviewed function. Restructuring
+// conditionals, guard clauses, library idioms and helpers keep the set; a branch that starts
+// to depend on a field or an answer the function never consulted (a tag's presence, a name
+// being set, another entity's version) changes for which inputs the function does its work.
+// Library calls and literals are not judged here (an idiom swap changes them freely); the
+// skip / early-exit inventories judge those where an element or the rest of a function is lost.
+
+func ruleDecisionInputs(c *Ctx, r *Report, clause string, pkgPrefixes ...string) {
+	w := c.W
+	type agg struct {
+		fns, sites []string
+		viol       string
+	}
+	per := map[string]*agg{}
+	fis := w.funcsOfPkgPrefixes(pkgPrefixes...)
+	sort.Slice(fis, func(i, j int) bool { return fis[i].Key < fis[j].Key })
+	for _, fi := range fis {
+		if w.isNewName(fi.Key) || fi.Decl.Body == nil {
+			continue // judged as part of the reviewed functions that reach it
+		}
+		pkg := short(fi.Pkg.PkgPath)
+		if per[pkg] == nil {
+			per[pkg] = &agg{}
+		}
+		g := per[pkg]
+		g.fns = append(g.fns, fi.Key)
+		for _, rf := range w.astRegion(fi) {
+			for _, ce := range branchConds(rf) {
+				var a *Atoms
+				w.withHost(fi.Key, func() { a = w.exprAtomsDeep(rf, ce) })
+				data := newAstAtoms()
+				for f := range a.Fields {
+					data.Fields[f] = true
+				}
+				for cl := range a.Calls {
+					if n := strings.TrimLeft(strings.TrimPrefix(strings.TrimPrefix(cl, "inlined:"), "func:"), "(*"); isGleeceCallee(n) && !strings.HasPrefix(n, "infrastructure/logger") && !strings.HasPrefix(n, "common/linq") {
+						data.Calls[cl] = true
+					}
+				}
+				if len(data.Fields)+len(data.Calls) == 0 {
+					continue
+				}
+				if un := w.unknownInputs(c.VerifDir, fi.Key, data); len(un) > 0 {
+					pos := w.pos(ce.Pos())
+					g.sites = append(g.sites, pos)
+					g.viol = fmt.Sprintf("%s: a branch of %s now depends on %v, which none of the function's reviewed branches consulted (tables/condatoms.json): for some inputs it now does, skips or answers something else than the reviewed function did", pos, fi.Key, un)
+				}
+			}
+		}
+	}
+	pkgs := make([]string, 0, len(per))
+	for p := range per {
+		pkgs = append(pkgs, p)
+	}
+	sort.Strings(pkgs)
+	for _, p := range pkgs {
+		g := per[p]
+		sites := g.sites
+		if len(sites) == 0 {
+			sites = []string{p + ":0"}
+		}
+		r.add(clause, "decision-inputs", p, fmt.Sprintf("the branches of the %d reviewed functions of %s read only the fields and ask only the gleece functions their reviewed branches did", len(g.fns), p), []string{p}, sites, g.viol)
+	}
 }
